@@ -56,6 +56,12 @@ CLAIMS = {
         note="Not decided: equality of values computed by shared stdlib calls beyond equal argument expressions; duplicate request-header semantics; a sanctioned whole-body pair (request stream, header mapping, middleware capture) is compared on signature only and covered by C10/C20. A one-sided refactor that changes the lexical guard text of an effect without changing behaviour is reported (conservative).",
         ref="DESIGN.md section 3, C04",
     ),
+    "C07": dict(
+        technique="static analysis: sanitiser dominance over every path expression reaching a file-system sink (path-sensitive AST dataflow with reaching-definition trees), who-may-call scan, idiom table for segment-aware confinement tests",
+        text="Decides the confinement clause structurally for all request paths: on every path of the four __call__s each expression reaching os.stat / FileResponse is ensure_absolute_path(<request path>) plus at most a separator-free constant suffix; no other function of the static-file modules touches the file system; the sanitiser normalises before testing, tests the value it returns, rejects with None and uses a segment-aware idiom (the over-rejecting relpath.startswith('..') - defect F5, repaired - and the under-rejecting startswith(directory) are violations); the regular-file flag is S_ISREG of the stat of the served path and that stat_result is the one given to FileResponse; the configured directory is absolute; Pages fallbacks (index.html, .html retry, directory redirect) are confined and guarded. Not decided: that every path maps to the right file (defect F6 '/dir/' is described, not detected).",
+        note="Trusted: os.path function semantics. Symlinks are outside the statement. A correct confinement test in an idiom outside the table yields UNDECIDED.",
+        ref="DESIGN.md section 3, C07",
+    ),
 }
 
 NOT_APPLICABLE = {
